@@ -1,0 +1,6 @@
+//go:build !verif
+// +build !verif
+
+package leveldb
+
+func verifTableOpened(s *session) {}
